@@ -487,7 +487,8 @@ def tag_state(*values: Any, name: str) -> Any:
         # Return result with appropriate batching dimensions
         if isinstance(result, tuple):
             # For multiple outputs, each has the same dims as inputs
-            return result, tuple(dims[0] if dims else () for _ in result)
+            # the site is the identity: every value keeps its own batch axis
+            return result, tuple(dims)
         else:
             # For single output, return as tuple (JAX expects a sequence for dims_out)
             return (result,), (dims[0] if dims else (),)
